@@ -226,24 +226,58 @@ def check_escape(c, f, cp):
     inits = [n for n in g.nodes if n.kind == 'stmt' and iv in assigned_names(n.ast) and n is not fn]
     c.check(len(inits) == 1 and is_const(inits[0].ast.value, -1) and g.dominated_by(fn, {inits[0]})[0], cp, inits[0].ast if inits else fn.ast,
             'the position defaults to -1 (not found)', kind='ast', tag='default')
-    tt = [t for t in g.nodes if t.kind == 'test' and norm(t.ast) in ('%s != -1' % iv, '%s >= 0' % iv, '%s > -1' % iv)]
-    c.need(len(tt) == 1, 'escape test not found')
-    reg = guard_region(g, tt[0], 'true')
+    # stated on the feasible paths after the search, under "found" (i != -1) and "not found" (i == -1): the shape of the tests,
+    # flag variables (`escaped = i != -1`) and merged tails do not matter
+    FOUND = [('-1 == %s' % iv, False, {iv})]
+    NOTFOUND = [('-1 == %s' % iv, True, {iv})]
 
     def is_prefix(e):
         sb_ = slice_bounds(e) if isinstance(e, ast.Subscript) else None
         return sb_ is not None and norm(e.value) == dv and sb_[0] is None and sb_[2] is None and is_name(sb_[1], iv)
-    cut = [n for n in reg if n.kind == 'stmt' and isinstance(n.ast, ast.Assign) and dv in assigned_names(n.ast)]
-    ws = [n for n in reg if any(callee_last(k).endswith('__interact_writen') for k in node_calls(n))]
-    wargs = [k.args[1] for n in ws for k in node_calls(n) if callee_last(k).endswith('__interact_writen') and len(k.args) == 2]
-    via_cut = len(cut) == 1 and is_prefix(cut[0].ast.value) and len(wargs) == 1 and norm(wargs[0]) == dv and bool(ws) and g.dominated_by(ws[0], {cut[0]})[0]
-    direct = not cut and len(wargs) == 1 and is_prefix(wargs[0])
-    c.check(via_cut or direct, cp, (cut[0].ast if cut else (ws[0].ast if ws else tt[0].ast)),
-            'what reaches the child from this read is exactly the prefix data[:i] before the escape character (the escape character and what follows are dropped)',
-            witness='cut: %s; written: %s' % ([norm(x.ast) for x in cut], [norm(x) for x in wargs]), kind='alg', tag='prefix')
-    brk = [n for n in reg if n.kind == 'stmt' and isinstance(n.ast, ast.Break)]
-    ok = len(ws) == 1 and len(brk) == 1 and g.dominated_by(brk[0], {ws[0]})[0]
-    c.check(ok, cp, ws[0].ast if ws else tt[0].ast, 'the prefix is delivered to the child, then interact returns', tag='deliver-then-leave')
+    live = g.live_nodes()
+    reads_ = set(n for n, k in cfg_nodes_with_call(cp, lambda k: callee_last(k) in ('select_ignore_interrupts', 'poll_ignore_interrupts') or callee_last(k).endswith('__interact_read')
+                                                     or callee_last(k).endswith('__interact_wait_readable')))
+    # everything below concerns what happens between the search and the next wait for input
+    after = set(n for n in g.nodes if n in live and g.path(fn, {n}, avoid=reads_ | {fn}, skip_labels=('exc',), include_start=False) is not None)
+    wsk = [(n, k) for n, k in cfg_nodes_with_call(cp, lambda k: callee_last(k).endswith('__interact_writen')) if n in after]
+    c.need(wsk, '__interact_copy: no write to the child after the escape search')
+    ws = [n for n, k in wsk]
+    cuts = set(n for n in after if n.kind == 'stmt' and isinstance(n.ast, ast.Assign) and dv in assigned_names(n.ast) and is_prefix(n.ast.value))
+    other_defs = set(n for n in after if n.kind == 'stmt' and dv in assigned_names(n.ast) and n not in cuts)
+    loops_ = [n for n in iter_nodes(cp.node) if isinstance(n, ast.While)]
+    hdr_ = g.node_of_stmt(loops_[0]) if loops_ else None
+    stop = reads_ | {fn} | ({hdr_} if hdr_ is not None else set())
+    after = set(n for n in after if g.path(fn, {n}, avoid=stop, skip_labels=('exc',), include_start=False) is not None)
+    okp = not other_defs
+    wit = ['%s is reassigned: %s' % (dv, norm(n.ast)) for n in other_defs]
+    for n, k in wsk:
+        a_ = k.args[1] if len(k.args) == 2 else None
+        if a_ is not None and is_prefix(a_):
+            continue                                  # writes data[:i] directly
+        if a_ is None or norm(a_) != dv:
+            okp = False
+            wit.append('writes %s' % (norm(a_) if a_ is not None else '?'))
+            continue
+        p_ = g.path(fn, {n}, avoid=cuts | stop, skip_labels=('exc',), include_start=False, assume=FOUND)
+        if p_ is not None:
+            okp = False
+            wit.append('with the escape character found the whole read reaches the child: ' + g.describe_path(p_))
+    c.check(okp, cp, ws[0].ast, 'what reaches the child from this read is exactly the prefix data[:i] before the escape character (the escape character and what follows are dropped)',
+            witness='; '.join(wit) or None, kind='path', tag='prefix')
+    leaves = set(n for n in g.nodes if n in live and n.kind == 'stmt' and isinstance(n.ast, (ast.Break, ast.Return))) | {g.exit}
+    # found: the prefix is written on every way on (to the next wait or out of the loop), and after the write nothing more is read
+    p1 = g.path(fn, leaves | reads_, avoid=set(ws) | {fn}, skip_labels=('exc',), include_start=False, assume=FOUND)
+    p2 = None
+    for w in ws:
+        p2 = p2 or g.path(fn, reads_ | (set(ws) - {w}), avoid={fn}, skip_labels=('exc',), include_start=False, assume=FOUND, via={w})
+    c.check(p1 is None and p2 is None, cp, ws[0].ast, 'the prefix is delivered to the child, then interact returns',
+            witness=('path: ' + g.describe_path(p1 or p2)) if (p1 or p2) else None, kind='path', tag='deliver-then-leave')
+    # not found: everything is written (never the prefix) and the loop goes on
+    p3 = g.path(fn, leaves | reads_, avoid=set(ws) | {fn}, skip_labels=('exc',), include_start=False, assume=NOTFOUND)
+    p4 = g.path(fn, leaves & after, avoid=stop, skip_labels=('exc',), include_start=False, assume=NOTFOUND)
+    pc = g.path(fn, cuts, avoid=stop, skip_labels=('exc',), include_start=False, assume=NOTFOUND) if cuts else None
+    c.check(p3 is None and p4 is None and pc is None, cp, ws[0].ast, 'without an escape character in the read, the whole read is written and the copy loop goes on',
+            witness=('path: ' + g.describe_path(p3 or p4 or pc)) if (p3 or p4 or pc) else None, kind='path', tag='no-escape-continues')
     # after the break nothing more is written: the only successor is loop exit (structural by Break)
     # interact(): escape_character is converted to bytes once, and passed on
     ks = [k for k in calls_in(f.node) if callee_last(k).endswith('__interact_copy')]
